@@ -1,5 +1,6 @@
 import NumbatModel.Lemmas.Qty
 import NumbatModel.Lemmas.QtySimplify
+import NumbatModel.Lemmas.QtyCanon
 set_option linter.unusedSectionVars false
 /-!
 # C05 — automatic unit simplification never changes the quantity
@@ -119,6 +120,170 @@ theorem simplify_respects_flag (tbl : Table α) (q : Quantity α) (h : q.canSimp
     fullSimplify tbl q = some q := by
   unfold fullSimplify; simp [h]
 
+/-! ### the dimension is preserved, and converting back gives the unsimplified magnitude -/
+
+/-- the forward half of C04's `convert_ok_iff` (no hypothesis on the table, any numeric instance): a successful
+conversion either started from a zero or goes to a unit of the same dimension vector -/
+theorem convert_ok_vec {β : Type} [NumOps β] (tbl : Table β) (q q' : Quantity β) (U : Unit)
+    (h : convertTo tbl q U = .ok q') : q.isZero = true ∨ ∀ b, unitVec tbl q.unit b = unitVec tbl U b := by
+  unfold convertTo at h
+  split at h
+  · rename_i hc
+    rcases Bool.or_eq_true _ _ ▸ hc with he | hz
+    · right
+      intro b
+      unfold unitEq at he
+      have : canon tbl q.unit = canon tbl U := by simpa using he
+      rw [← unitVec_canon tbl q.unit, this, unitVec_canon]
+    · left; exact hz
+  · right
+    simp only at h
+    split at h
+    · rename_i he
+      have he' : baseRep tbl (canon tbl (Unit.div q.unit (commonFactors (canon tbl q.unit) (canon tbl U))))
+          = baseRep tbl (canon tbl (Unit.div U (commonFactors (canon tbl q.unit) (canon tbl U)))) := by
+        simpa using he
+      intro b
+      have h1 := congrArg (fun l => vecOfBase l b) he'
+      simp only [baseRep, vecOfBase_canonBase, vecOfBase_baseRepRaw, unitVec_canon, Unit.div, unitVec_append] at h1
+      grind
+    · cases h
+
+/-- the dimension invariant of the loop of heuristic 3: the unit built so far has the dimension vector of the
+groups consumed so far -/
+theorem h3_fold_vec (tbl : Table α) (b : Nat) (P : Unit → Prop)
+    (step : Option (α × Unit) → Unit → Option (α × Unit))
+    (hstep : ∀ (f : α) (s : Unit) (g : Unit) (f' : α) (s' : Unit), P g →
+      step (some (f, s)) g = some (f', s') → unitVec tbl s' b = unitVec tbl s b + unitVec tbl g b)
+    (hnone : ∀ g, step none g = none) :
+    ∀ (groups : List Unit), (∀ g ∈ groups, P g) → ∀ (f : α) (s : Unit) (f' : α) (s' : Unit),
+      groups.foldl step (some (f, s)) = some (f', s') →
+      unitVec tbl s' b = unitVec tbl s b + unitVec tbl groups.flatten b := by
+  intro groups
+  induction groups with
+  | nil =>
+    intro _ f s f' s' h
+    simp at h; obtain ⟨_, h2⟩ := h; subst h2
+    simp only [List.flatten_nil, unitVec]; grind
+  | cons g gs ih =>
+    intro hP f s f' s' h
+    simp only [List.foldl_cons] at h
+    cases hs : step (some (f, s)) g with
+    | none =>
+      rw [hs] at h
+      have : ∀ gs : List Unit, gs.foldl step none = none := by
+        intro gs; induction gs with
+        | nil => rfl
+        | cons a as iha => simp [List.foldl_cons, hnone, iha]
+      rw [this] at h; cases h
+    | some p =>
+      obtain ⟨f1, s1⟩ := p
+      rw [hs] at h
+      have e1 := hstep f s g f1 s1 (hP g List.mem_cons_self) hs
+      have e2 := ih (fun x hx => hP x (List.mem_cons_of_mem _ hx)) f1 s1 f' s' h
+      simp only [List.flatten_cons, unitVec_append]
+      grind
+
+/-- **Simplification preserves the physical dimension**: the simplified unit has the dimension vector of the
+original unit — unless the value is a zero, which `full_simplify` displays as the bare (dimension-polymorphic)
+`0` (see `simplify_zero`). -/
+theorem simplify_dim (tbl : Table α) (hwf : WF tbl) (hn : NamesDistinct tbl) (q r : Quantity α)
+    (h : fullSimplify tbl q = some r) :
+    q.isZero = true ∨ ∀ b, unitVec tbl r.unit b = unitVec tbl q.unit b := by
+  unfold fullSimplify at h
+  split at h
+  · cases h; right; intro b; rfl
+  · split at h
+    · rename_i r' hc
+      cases h
+      rcases convert_ok_vec tbl q r [] hc with hz | hv
+      · left; exact hz
+      · right; intro b; rw [convert_unit' tbl q r [] hc]; exact (hv b).symm
+    · simp only at h
+      split at h
+      · -- heuristic 2
+        rename_i r' hh2
+        cases h
+        split at hh2
+        · obtain ⟨f, _, hf⟩ := List.exists_of_findSome?_eq_some hh2
+          split at hf
+          · split at hf
+            · split at hf
+              · rename_i c hc
+                cases hf
+                rcases convert_ok_vec tbl q r _ hc with hz | hv
+                · left; exact hz
+                · right; intro b; rw [convert_unit' tbl q r _ hc]; exact (hv b).symm
+              · cases hf
+            · cases hf
+          · cases hf
+        · cases hh2
+      · -- heuristic 3
+        split at h
+        · cases h
+        · rename_i factor simplified hfold
+          cases h
+          right
+          intro b
+          have hgroups := chunkBy_spec (fun f : Factor => sortKey tbl f.unit) (canon tbl q.unit)
+          have key := h3_fold_vec tbl b
+            (fun g : Unit => g ≠ [] ∧ ∀ x ∈ g, ∀ y ∈ g, sortKey tbl x.unit = sortKey tbl y.unit) _ (by
+              intro f s g f' s' hg hst
+              simp only at hst
+              obtain ⟨rep, hrep, hmem⟩ := maxBy_mem (fun (f1 f2 : Factor) =>
+                  if (isBaseUnit tbl f1.unit != isBaseUnit tbl f2.unit) = true then
+                    !isBaseUnit tbl f1.unit && isBaseUnit tbl f2.unit
+                  else decide (f1.exp ≤ f2.exp)) g hg.1
+              simp only [hrep] at hst
+              have hkey : ∀ x ∈ g, sortKey tbl x.unit = sortKey tbl rep.unit := fun x hx => hg.2 x hx rep hmem
+              split at hst
+              · cases hst
+                simp only [Unit.mul, unitVec_append]
+                rw [← h3_target_vec tbl hwf hn g rep hkey b]
+              · cases hst)
+            (by intro g; rfl) _ hgroups one [] factor simplified hfold
+          simp only
+          rw [unitVec_canon, key, chunkBy_flatten, unitVec_canon]
+          simp only [unitVec]; grind
+
+/-- a zero converts to every unit (C04 `convert_zero'`, restated here to keep the files independent) -/
+theorem convertTo_of_zero {β : Type} [NumOps β] (tbl : Table β) (q : Quantity β) (U : Unit) (hz : q.isZero = true) :
+    convertTo tbl q U = .ok ⟨q.value, U, true⟩ := by
+  unfold convertTo
+  simp [hz]
+
+/-- what happens to a zero: `full_simplify` turns it into the bare `0` (heuristic 1: a zero converts to the
+scalar unit), whatever unit it carried -/
+theorem simplify_zero {β : Type} [NumOps β] (tbl : Table β) (q : Quantity β) (hz : q.isZero = true)
+    (hc : q.canSimplify = true) : fullSimplify tbl q = some ⟨q.value, [], true⟩ := by
+  unfold fullSimplify
+  simp [hc, convertTo_of_zero tbl q [] hz]
+
+/-- **Converting a simplified result back to the unit of the unsimplified computation gives the unsimplified
+magnitude** — and that conversion always succeeds. -/
+theorem simplify_convert_back (tbl : Table α) (hp : PosTbl tbl) (hwf : WF tbl) (hn : NamesDistinct tbl)
+    (q r : Quantity α) (h : fullSimplify tbl q = some r) :
+    ∃ q', convertTo tbl r q.unit = .ok q' ∧ q'.value = q.value ∧ q'.unit = q.unit := by
+  have hex : ∃ q', convertTo tbl r q.unit = .ok q' := by
+    rcases simplify_dim tbl hwf hn q r h with hz | hv
+    · by_cases hc : q.canSimplify = true
+      · rw [simplify_zero tbl q hz hc] at h
+        cases h
+        exact ⟨_, convertTo_of_zero tbl _ q.unit hz⟩
+      · have hc' : q.canSimplify = false := by simpa using hc
+        rw [simplify_respects_flag tbl q hc'] at h
+        cases h
+        exact ⟨_, convertTo_of_zero tbl _ q.unit hz⟩
+    · exact convComplete tbl hn r q.unit hv
+  obtain ⟨q', hq'⟩ := hex
+  refine ⟨q', hq', ?_, convert_unit' tbl r q' q.unit hq'⟩
+  have e1 := simplify_phys tbl hp q r h
+  have e2 := convert_phys' tbl hp r q' q.unit hq'
+  have hu := convert_unit' tbl r q' q.unit hq'
+  unfold phys at e1 e2
+  have hq : prodW tbl q.unit ≠ 0 := pos_ne_zero _ (pos_prodW tbl hp _)
+  grind
+
 /-- The registry-based simplification of displayed results preserves the physical magnitude too. -/
 theorem simplifyReg_phys (tbl : Table α) (hp : PosTbl tbl) (reg : List RegRow) (q r : Quantity α)
     (h : fullSimplifyReg tbl reg q = some r) : phys tbl r = phys tbl q := by
@@ -160,6 +325,89 @@ theorem simplifyReg_phys (tbl : Table α) (hp : PosTbl tbl) (reg : List RegRow) 
               · cases hf
             · cases hf
           · cases h; exact hsq
+
+/-- the shape of the registry-based simplification: `full_simplify`, then at most one more conversion -/
+theorem simplifyReg_cases {β : Type} [NumOps β] (tbl : Table β) (reg : List RegRow) (q r : Quantity β)
+    (h : fullSimplifyReg tbl reg q = some r) :
+    ∃ s, fullSimplify tbl q = some s ∧ (r = s ∨ ∃ U, convertTo tbl s U = .ok r) := by
+  unfold fullSimplifyReg at h
+  split at h
+  · cases h
+  · rename_i s hs
+    refine ⟨s, hs, ?_⟩
+    split at h
+    · cases h; left; rfl
+    · split at h
+      · cases h; left; rfl
+      · simp only at h
+        split at h
+        · rename_i c hd
+          cases h
+          split at hd
+          · split at hd
+            · split at hd
+              · rename_i c' hc
+                cases hd
+                right; exact ⟨_, hc⟩
+              · cases hd
+            · cases hd
+          · cases hd
+        · split at h
+          · rename_i c hfs
+            cases h
+            obtain ⟨id, _, hf⟩ := List.exists_of_findSome?_eq_some hfs
+            split at hf
+            · split at hf
+              · rename_i c' hc
+                cases hf
+                right; exact ⟨_, hc⟩
+              · cases hf
+            · cases hf
+          · cases h; left; rfl
+
+/-- a quantity with the physical magnitude of a zero is a zero -/
+theorem isZero_of_phys_eq (tbl : Table α) (hp : PosTbl tbl) (a b : Quantity α) (h : phys tbl a = phys tbl b)
+    (hz : a.isZero = true) : b.isZero = true := by
+  unfold Quantity.isZero at *
+  rw [beq_iff, zero_eq] at *
+  unfold phys at h
+  have hb : prodW tbl b.unit ≠ 0 := pos_ne_zero _ (pos_prodW tbl hp _)
+  grind
+
+/-- the registry-based simplification (what the interpreter applies to displayed results, printed values and
+interpolated strings) preserves the physical dimension too — a zero excepted, as in `simplify_dim` -/
+theorem simplifyReg_dim (tbl : Table α) (hp : PosTbl tbl) (hwf : WF tbl) (hn : NamesDistinct tbl)
+    (reg : List RegRow) (q r : Quantity α) (h : fullSimplifyReg tbl reg q = some r) :
+    q.isZero = true ∨ ∀ b, unitVec tbl r.unit b = unitVec tbl q.unit b := by
+  obtain ⟨s, hs, hr⟩ := simplifyReg_cases tbl reg q r h
+  rcases simplify_dim tbl hwf hn q s hs with hz | hv
+  · left; exact hz
+  · rcases hr with rfl | ⟨U, hU⟩
+    · right; exact hv
+    · rcases convert_ok_vec tbl s r U hU with hsz | hsv
+      · left
+        exact isZero_of_phys_eq tbl hp s q (simplify_phys tbl hp q s hs) hsz
+      · right
+        intro b
+        rw [convert_unit' tbl s r U hU, ← hsv b, hv b]
+
+/-- converting a *displayed* result back to the unit of the unsimplified computation succeeds and gives the
+unsimplified magnitude -/
+theorem simplifyReg_convert_back (tbl : Table α) (hp : PosTbl tbl) (hwf : WF tbl) (hn : NamesDistinct tbl)
+    (reg : List RegRow) (q r : Quantity α) (h : fullSimplifyReg tbl reg q = some r) :
+    ∃ q', convertTo tbl r q.unit = .ok q' ∧ q'.value = q.value ∧ q'.unit = q.unit := by
+  have hphys := simplifyReg_phys tbl hp reg q r h
+  have hex : ∃ q', convertTo tbl r q.unit = .ok q' := by
+    rcases simplifyReg_dim tbl hp hwf hn reg q r h with hz | hv
+    · exact ⟨_, convertTo_of_zero tbl r q.unit (isZero_of_phys_eq tbl hp q r hphys.symm hz)⟩
+    · exact convComplete tbl hn r q.unit hv
+  obtain ⟨q', hq'⟩ := hex
+  refine ⟨q', hq', ?_, convert_unit' tbl r q' q.unit hq'⟩
+  have e2 := convert_phys' tbl hp r q' q.unit hq'
+  unfold phys at hphys e2
+  have hq : prodW tbl q.unit ≠ 0 := pos_ne_zero _ (pos_prodW tbl hp _)
+  grind
+
 
 theorem simplifyReg_respects_flag (tbl : Table α) (reg : List RegRow) (q : Quantity α)
     (h : q.canSimplify = false) : fullSimplifyReg tbl reg q = some q := by
